@@ -6,30 +6,37 @@ from concurrent.futures import ThreadPoolExecutor
 
 import lib
 from checks import c05
+from checks import raftlog_common as rl
 
-TARGETS = ["Props/C04.v", "RaftLog/Script.v"]
+TARGETS = ["Props/C04.v", "RaftLog/Script.v", "RaftLog/LogCrashScript.v", "RaftLog/LogCrashExamples.v"]
 
 MANIFEST = dict(
-    text="Theorem crash_safe_index over ALL histories and ALL crash points: for every history of writer operations and "
-         "reopens of the raft index file and EVERY prefix of the journal of file mutations it issues, the restarted store "
-         "reads back exactly the state after some prefix of the history (term, vote, membership, addresses, log/snapshot "
-         "catalogue, last_applied are values written before the crash, never a mixture or an invented value), and "
-         "applied_never_past_reproducible: a composition theorem over an abstract log/snapshot interface. Tied to the code by "
-         "crashfs: the harness runs histories against the REAL RaftIndexManager / FileStore under an LD_PRELOAD shim that "
-         "journals every write/pwrite/ftruncate/rename/unlink/create with path, offset and bytes; the runner materialises the "
-         "directory image of EVERY prefix of the OBSERVED journal, opens it with the real recovery code and with the model's "
-         "recover, and evaluates an independent oracle (recovers without error; metadata = some written value; last_applied "
-         "<= what the recovered log reproduces; log contiguous, only submitted entries).",
-    note="proof, partial. The model cannot exhibit: torn single writes (each write call is atomic in the model and in the "
-         "materialised images), fsync / power loss and directory-entry durability (the OS survives), and the blocking-pool "
-         "scheduling that decides in which order writes of different tokio handles/actors reach the OS (observed through the "
-         "journal, not controlled). The log and snapshot FILES are not modelled here (separate log model): they enter the "
-         "theorem only through the abstract interface [reproducible]; their crash images are judged by the oracle on the "
-         "real recovery code only. Snapshot data files are not exercised. Acknowledgements are journalled too (a mark written by the "
-         "caller when a save returns): an image whose prefix holds the mark of a save must reopen to a state that includes "
-         "it (class index:ack_before_write, repaired by a fix: commit; a return of the defect is a VIOLATION with the image).",
-    technique="Rocq proof (journal-prefix induction over the refinement invariant) + LD_PRELOAD syscall journal + "
-              "exhaustive crash-prefix replay on the real recovery code",
+    text="Theorems over ALL histories and ALL crash points. (1) Index file: crash_safe_index / crash_safe_acked — for every "
+         "history of writer operations and reopens and EVERY prefix of the journal of file mutations it issues, the restarted "
+         "store reads back exactly the state after some prefix of the history (term, vote, membership, addresses, catalogue, "
+         "last_applied are values written before the crash), and every acknowledged save is in every later image. (2) Log "
+         "file: crash_safe_log_append — for every history of appends to a fresh log file (all payloads, block boundaries, "
+         "file growth) and EVERY prefix of its journal (set_len / data write / index entry, in program order), the repaired "
+         "init succeeds and exposes exactly the records whose data write is in the prefix (contiguous, only submitted, none "
+         "missing), including the image where the data write completing a 128-block landed and its index entry did not "
+         "(init rebuilds the entry: C04_init_lagging_index). (3) crash_safe_store — log file + last_applied header with Raft's "
+         "discipline (applied only what was appended): in every crash state last_applied is 0 or below the recovered end "
+         "index. Tied to the code by crashfs: the real RaftIndexManager / FileStore / LogInnerManager run under an LD_PRELOAD "
+         "shim journalling every write/pwrite/ftruncate/rename/unlink/create; the observed journals must have the model's "
+         "shape (kind, offset, length); the directory / file image of EVERY prefix of the OBSERVED journal is reopened by the "
+         "real recovery code and by the model's init, then used (more appends, another reopen), and judged by an independent "
+         "oracle computed from the meaning of the mutations.",
+    note="proof, partial. Not covered by a theorem: crash images of delete-from (strip_log_to) — they are replayed "
+         "exhaustively on the real code and on the model for the generated histories (the three defects found this way are "
+         "repaired) and enumerated for one concrete history in RaftLog/LogCrashExamples.v; rollover across log files and the "
+         "catalogue-vs-new-log-file ordering (two actors), snapshot data files. The model cannot exhibit: torn single writes "
+         "(each write call is atomic in the model and in the materialised images), fsync / power loss and directory-entry "
+         "durability (the OS survives), and the blocking-pool scheduling that decides in which order writes of different "
+         "tokio handles/actors reach the OS (the observed order is recorded and compared, not controlled; the data and index "
+         "handles of one log file are two such handles). Acknowledgements are journalled too: an image whose prefix holds "
+         "the mark of a save must reopen to a state that includes it.",
+    technique="Rocq proof (journal-prefix induction over refinement invariants; canonical-state lemmas of the log model) + "
+              "LD_PRELOAD syscall journal + exhaustive crash-prefix replay on the real recovery code",
     design="3/C04",
 )
 HEADER = ("From RN Require Import Base.Res Codec.Varint RaftLog.IndexFile RaftLog.Script.\n"
@@ -229,6 +236,206 @@ def judge_image(chk, hist, k, acked, o, stats):
                          "recovered last_applied %d points past the recovered log (last index %d): %s" % (c["applied"], repro, where), rp)
 
 
+# ================================================================ log file (LogInnerManager) under crashfs
+LOG_HEADER = ("From RN Require Import Base.Res Codec.Varint Codec.BufReader Codec.Script RaftLog.LogFile "
+              "RaftLog.LogScript RaftLog.LogCrash RaftLog.LogCrashScript.\nOpen Scope N_scope.\n")
+
+
+def log_fixed_histories():
+    w = lambda i, n=5: ["w", i, 1, n, i]
+    return [
+        # the 128-record block boundary: data write of #128, then its index entry
+        dict(name="block-boundary", ops=[w(i) for i in range(1, 131)], model_images=True),
+        # delete-from inside the first block: the file is cut behind the last kept record, then regrown
+        dict(name="strip-cut", ops=[w(i, 20) for i in range(1, 11)] + [["s", 5]] + [w(i, 3) for i in range(5, 8)],
+             model_images=True),
+        # delete-from that pops an index entry
+        dict(name="strip-pop", ops=[w(i) for i in range(1, 131)] + [["s", 100], w(100, 7), w(101, 7)], model_images=True),
+        # growth of the file (set_len before the data write)
+        dict(name="growth", ops=[w(i, 230000) for i in range(1, 6)], model_images=False),
+    ]
+
+
+def gen_log_history(rng):
+    ops, nxt = [], 1
+    for _ in range(rng.randrange(3, 14)):
+        if rng.random() < 0.25 and nxt > 2:
+            k = rng.randrange(1, nxt)
+            ops.append(["s", k])
+            nxt = k
+        else:
+            ops.append(["w", nxt, rng.randrange(1, 4), rng.choice([0, 1, 5, 20, 120, 130, 300]), rng.randrange(1, 1 << 20)])
+            nxt += 1
+    return dict(name="random", ops=ops, model_images=True)
+
+
+def run_log_history(ix, h, base):
+    d = os.path.join(base, "log%d" % ix)
+    live = os.path.join(d, "live")
+    os.makedirs(live)
+    case = {"start": 1, "pre_term": 0, "split": 0, "path": os.path.join(live, "log_1"), "ops": h["ops"]}
+    cin, cout, jr = os.path.join(d, "case.jsonl"), os.path.join(d, "out.jsonl"), os.path.join(d, "journal")
+    with open(cin, "w") as f:
+        f.write(json.dumps(case) + "\n")
+    rc, out = lib.sh([lib.BIN, "logfile", cin, cout], timeout=300, cwd=d,
+                     env={"LD_PRELOAD": SHIM_SO, "CRASHFS_ROOT": live, "CRASHFS_JOURNAL": jr})
+    if rc != 0:
+        raise RuntimeError("logfile harness under crashfs failed rc=%s: %s" % (rc, out[-2000:]))
+    res = json.loads(open(cout).read().strip())
+    return [m for m in parse_journal(jr, os.path.realpath(live)) if m[1] == "log_1"], res
+
+
+def rec_digest(op):
+    v = rl.lcg_bytes(op[3], op[4])
+    return [op[1], op[2], len(v), rl.msum(v)]
+
+
+def rec_frame(op):
+    """LogRecord as quick-protobuf writes it: varint(len) ++ [8 index] [16 term] [42 len value]"""
+    v = rl.lcg_bytes(op[3], op[4])
+    body = []
+    if op[1]:
+        body += [8] + c05.leb(op[1])
+    if op[2]:
+        body += [16] + c05.leb(op[2])
+    if v:
+        body += [42] + c05.leb(len(v)) + list(v)
+    return bytes(c05.leb(len(body)) + body)
+
+
+def log_expected(h, journal, k):
+    """the records a file image must expose, from the meaning of the mutations alone: the i-th data write is
+    the i-th accepted write; a set_len below the end of a record removes it"""
+    acc = [op for op, o in zip(h["ops"], h["live"]["out"]) if op[0] == "w" and o.get("w") in ("ok", "end")]
+    recs, wi = [], 0          # (digest, end offset)
+    for m in journal[:k]:
+        if m[0] == "W" and m[2] >= 4096:
+            if wi < len(acc) and m[3] == rec_frame(acc[wi]):
+                recs.append((rec_digest(acc[wi]), m[2] + len(m[3])))
+                wi += 1
+            # any other write into the data area is not a record (the journal-shape comparison reports it)
+        elif m[0] == "T":
+            recs = [r for r in recs if r[1] <= m[2]]
+    return [r[0] for r in recs]
+
+
+def image_parts(content):
+    b = bytes(content)
+    if len(b) == 0:
+        return None
+    be = lambda a, n: int.from_bytes(b[a:a + n], "big")
+    idx = list(b[32:4096].rstrip(b"\0"))
+    data = list(b[4096:].rstrip(b"\0"))
+    return dict(lt=be(6, 8), fi=be(14, 8), da=be(22, 2), iv=be(24, 2), idx=idx, data=data, len=len(b))
+
+
+def coq_image(p):
+    if p is None:
+        return "None"
+    return "(image %d %d %d %d %s %s %d)" % (p["lt"], p["fi"], p["da"], p["iv"], c05.coq_bytes(p["idx"]),
+                                             c05.coq_bytes(p["data"]), p["len"])
+
+
+def log_part(chk, rng, quick, base, stats):
+    hists = log_fixed_histories() + [gen_log_history(rng) for _ in range(5 if quick else 60)]
+    with ThreadPoolExecutor(max_workers=8) as ex:
+        outs = list(ex.map(lambda ix: run_log_history(ix, hists[ix], base), range(len(hists))))
+    cases, meta = [], []
+    for ix, (h, (journal, live)) in enumerate(zip(hists, outs)):
+        h["journal"], h["live"] = journal, live
+        files = {}
+        for k in range(len(journal) + 1):
+            if k > 0:
+                apply_mut(files, journal[k - 1])
+            exp = log_expected(h, journal, k)
+            d = os.path.join(base, "limg", "h%d" % ix, "k%d" % k)
+            write_image(d, files)
+            n = len(exp)
+            # after the reopen: more appends, another reopen (a block boundary needs 128 more records to show
+            # a missing index entry)
+            more = 130 if (n > 0 and n % 128 == 0) else 3
+            follow = [["w", 1 + n + i, 2, 4, 7000 + i] for i in range(more)]
+            ops = [["i"], ["r", 1, n + 10]] + follow + [["o"], ["i"], ["r", 1, n + more + 10]]
+            cases.append({"start": 1, "pre_term": 0, "split": 0, "path": os.path.join(d, "log_1"), "ops": ops})
+            meta.append((ix, k, exp, follow, image_parts(files.get("log_1", b""))))
+    rec = lib.harness_run_parallel("logfile", cases)
+
+    # ---- oracle
+    for (ix, k, exp, follow, parts), c, r in zip(meta, cases, rec):
+        h = hists[ix]
+        rp = {"suite": "logfile under crashfs", "history": h["name"], "ops": h["ops"] if len(h["ops"]) < 40 else
+              {"n": len(h["ops"]), "head": h["ops"][:3], "tail": h["ops"][-4:]}, "journal_prefix": k,
+              "journal_tail": [list(m[:3]) + ([len(m[3])] if m[0] == "W" else []) for m in h["journal"][max(0, k - 4):k]],
+              "reopen_case": {"ops_head": c["ops"][:2], "follow_up": len(follow)}, "impl": r if len(str(r)) < 3000 else str(r)[:3000]}
+        where = "log file image after mutation #%d of %d (%s)" % (k, len(h["journal"]), h["name"])
+        if r.get("r") != "ok" or any(isinstance(o, dict) and "x" in o for o in r.get("out", [])):
+            chk.classify("log:reopen_error", "the log file does not reopen: %s" % where, rp)
+            continue
+        o = r["out"]
+        n = len(exp)
+        if o[0].get("i", [None])[0] != 1 + n or o[1].get("r") != exp:
+            chk.classify("log:image_content", "reopened log holds end index %s / %d records, the image holds %d records written: %s"
+                         % (o[0].get("i", [None])[0], len(o[1].get("r") or []), n, where), rp)
+            continue
+        after = exp + [rec_digest(w) for w in follow]
+        ws = [x.get("w") for x in o[2:2 + len(follow)]]
+        last_i, last_r = o[-2], o[-1]
+        if any(x not in ("ok", "end") for x in ws) or o[2 + len(follow)].get("o") != "ok" \
+                or last_i.get("i", [None])[0] != 1 + len(after) or last_r.get("r") != after:
+            chk.classify("log:image_poisons_future",
+                         "after reopening the image, %d appends and another reopen the log holds end index %s / %d records "
+                         "instead of %d: %s" % (len(follow), last_i.get("i", [None])[0], len(last_r.get("r") or []), len(after), where), rp)
+        if 0 < k <= len(h["journal"]):
+            m = h["journal"][k - 1]
+            if m[0] == "T" and m[2] < 1048576 and parts and parts["len"] == m[2]:
+                stats["log_cut_images"] += 1
+            if m[0] == "W" and m[2] >= 4096 and n > 0 and n % 128 == 0:
+                stats["log_lagging_index_images"] += 1
+
+    # ---- model: journal shape, and init + script on every image
+    mism = 0
+    try:
+        shapes = lib.coq_eval_sharded("c04ls", LOG_HEADER,
+                                      ["script_journal 4096 1 0 0 [%s]" % ";".join(rl.coq_lop(o) for o in h["ops"]) for h in hists],
+                                      per=2)
+        mi = [i for i, (ix, k, exp, follow, parts) in enumerate(meta) if hists[ix]["model_images"]]
+        vals = lib.coq_eval_sharded("c04li", LOG_HEADER,
+                                    ["open_image_log %s 4096 1 0 0 [%s]" % (coq_image(meta[i][4]),
+                                                                          ";".join(rl.coq_lop(o) for o in cases[i]["ops"]))
+                                     for i in mi], per=12)
+    except RuntimeError as ex:
+        chk.violation("model evaluation failed (log file): %s" % str(ex)[:300], {"broken": "model evaluation", "log": str(ex)[-3000:]}, False)
+        return len(cases), mism
+    for h, sh in zip(hists, shapes):
+        real = [(1, 0, 0) if m[0] == "C" else (0, m[2], len(m[3])) if m[0] == "W" else (2, m[2], 0) for m in h["journal"]]
+        model = [tuple(t) for t in sh]
+        if real != model:
+            if sorted(real) == sorted(model):
+                stats["log_journal_reordered"] += 1      # another linearisation of the two handles: recorded
+            else:
+                mism += 1
+                d = next((i for i, (a, b) in enumerate(zip(real, model)) if a != b), min(len(real), len(model)))
+                chk.violation("observed log-file journal is not the model's journal (kind, offset, length) at #%d: %s vs %s"
+                              % (d, real[d:d + 3], model[d:d + 3]),
+                              {"suite": "logfile under crashfs", "history": h["name"], "ops": h["ops"][:40], "real": real[:200],
+                               "model": model[:200], "correspondence": "RaftLog.LogCrash.write_journal / strip_journal"}, False)
+    for i, v in zip(mi, vals):
+        ix, k, exp, follow, parts = meta[i]
+        m = [{"o": "ok" if v[0][1] == "true" else "err"}] + rl.canon_lf_model(v[1:]) if v and v[0][0] == "OO" else "?"
+        r = rec[i]
+        im = [{"o": "ok"}] + [o for op, o in zip(cases[i]["ops"], r.get("out", []))] if r.get("r") == "ok" else "panic"
+        if m != im:
+            mism += 1
+            chk.violation("model init != real LogInnerManager::init on a crash image: %s" % lib.diff_first(m, im),
+                          {"suite": "logfile open", "history": hists[ix]["name"], "journal_prefix": k,
+                           "image": {kk: (vv if not isinstance(vv, list) else len(vv)) for kk, vv in (parts or {}).items()},
+                           "correspondence": "RaftLog.LogFile.init (rebuild_index) / LogCrashScript.open_image_log"}, False)
+    stats["log_histories"] = len(hists)
+    stats["log_images"] = len(cases)
+    stats["log_images_model_checked"] = len(mi)
+    return len(cases), mism
+
+
 # ---------------------------------------------------------------- the check
 def run(chk, replay=None):
     tier = chk.tier
@@ -264,7 +471,8 @@ def _run(chk, rng, quick, proofs_ok, base):
     with ThreadPoolExecutor(max_workers=8) as ex:
         outs = list(ex.map(one, range(len(hists))))
 
-    stats = {"ack_before_write": 0, "applied_past_log": 0, "journal_deviates_from_model": 0}
+    stats = {"ack_before_write": 0, "applied_past_log": 0, "journal_deviates_from_model": 0,
+             "log_cut_images": 0, "log_lagging_index_images": 0, "log_journal_reordered": 0}
     images = []     # (hist index, k, dir)
     for ix, (h, (journal, live)) in enumerate(zip(hists, outs)):
         h["journal"] = journal
@@ -344,11 +552,15 @@ def _run(chk, rng, quick, proofs_ok, base):
                                   {"suite": "indexfile under crashfs", "ops": hists[ix]["ops"], "real": rj, "model": mj,
                                    "correspondence": "RaftLog.Crash.journal"}, False)
 
+    # ---- the log file (LogInnerManager) under the same shim
+    n_log, log_mism = log_part(chk, rng, quick, base, stats)
+    mism += log_mism
+
     if not proofs_ok:
         chk.violation("proof obligations of C04 no longer check: %s" % chk.proof_failure[:300],
                       {"broken": "theorem", "detail": chk.proof_failure}, False)
 
-    chk.cov["evaluations"] = len(images)
+    chk.cov["evaluations"] = len(images) + n_log
     chk.cov["distinct_nontrivial"] = len(nontrivial)
     chk.cov["rule"] = ("one evaluation = one directory image = one prefix of the OBSERVED syscall journal of one history, reopened "
                        "by the real recovery code (RaftIndexManager actor; in store mode the full FileStore chain with the log "
@@ -364,7 +576,8 @@ def _run(chk, rng, quick, proofs_ok, base):
     chk.assumptions += [
         "crash model of the property: process death, OS survives, every write call atomic, applied in issue order",
         "the observed journal is ONE linearisation chosen by the tokio blocking pool; others are not enumerated",
-        "log and snapshot files: judged on the real recovery code only (oracle), abstract in the theorem",
+        "log file: append histories proved; delete-from images, rollover and snapshot files judged by replay only",
+        "log-file histories start at index 1 in a fresh file; payloads are pseudo-random bytes of 0..300 (one history 230000) bytes",
         "acknowledged-but-unflushed log entries may be absent from an image (the property demands only flushed ones)",
     ]
     chk.notes["crash_stats"] = stats
